@@ -1,21 +1,21 @@
 SPECIFICATION Spec
 CONSTANTS
-  Parties = {"p1", "p2", "p3"}
+  Parties = {"p1", "p2"}
   Creator = "p1"
-  MaxCommits = 3
-  MaxProps = 2
-  MaxKps = 2
-  MaxEpoch = 3
+  MaxCommits = 2
+  MaxProps = 0
+  MaxKps = 1
+  MaxEpoch = 2
   PathRequiredChoices = {FALSE}
   EncChoices = {FALSE}
   ByValueMax = 1
   AllowConflicts = FALSE
-  Features = {}
-  Window = 2
-  Retention = 2
-  BurstSizes = {1, 2}
-  MaxApps = 0
-  Depth = 1000
+  Features = {"storage", "apps"}
+  Window = 1
+  Retention = 1
+  BurstSizes = {3}
+  MaxApps = 1
+  Depth = 16
   WProgress = 60
   WPropose = 30
   WCommit = 35
@@ -35,4 +35,5 @@ INVARIANT RetentionExact
 INVARIANT NoGenerationReuse
 INVARIANT AtMostOnce
 PROPERTY StepsByOne
+CONSTRAINT LevelBound
 CHECK_DEADLOCK FALSE
